@@ -97,6 +97,14 @@ func H_C10_Crash() {
 		after = states[crashedAt+1]
 	}
 	vAssert("c10.committed-kept-and-inflight-atomic", vOr(obsSame(o, before), obsSame(o, after)))
+	if vParam("merge") == 1 && mode != HintBPTSparseIdxMode {
+		// C15: records of the transaction that never committed are still in the segment; a Merge after
+		// recovery must not resurrect them
+		_ = db2.Merge()
+		o2 := observe(db2, keys, structs)
+		obsDescribe("merged", o2)
+		vAssert("c15.merge-after-crash-resurrects-nothing", obsSame(o, o2))
+	}
 	db2.Close()
 }
 
